@@ -83,7 +83,9 @@ Init ==
                \/ prog = <<Out(Filt(Var(<<"sv">>), <<FC(f1, SymArgs[a]), FC(f2, NoArg)>>))>>
        [] Family = "sym2" ->
             \E f1 \in RegFilters, f2 \in RegFilters, a \in 1..Len(SymArgs) :
-               \/ prog = <<Out(Filt(Var(<<"sv">>), <<FC(f1, SymArgs[a]), FC(f2, NoArg)>>))>>
+               \* (a filter that hands back the very value it was given keeps that value's safe mark; which filters do so for which
+               \*  input is not known for a symbolic filter, so chains that continue after an HTML-aware truncation are left out)
+               \/ (f1 \notin SafeOutFilters /\ prog = <<Out(Filt(Var(<<"sv">>), <<FC(f1, SymArgs[a]), FC(f2, NoArg)>>))>>)
                \/ prog = <<[t |-> "filter", chain |-> <<FC(f1, NoArg), FC(f2, SymArgs[a])>>, body |-> <<T(<<"a", " ", "b">>), Out(Var(<<"n2">>))>>]>>
 Next == go = FALSE /\ go' = TRUE /\ UNCHANGED prog
 
